@@ -84,10 +84,15 @@ type c35Case struct {
 	cfg    string // same xdev notmp
 	old    string
 	sample bool // sample the kill points instead of trying all of them
+	imm    bool // the target's directory is immutable (chattr +i): no temporary file can be created or renamed into it
 }
 
 func (cs c35Case) witness() string {
-	return fmt.Sprintf("w %s %s %o %o %s %s", cs.cfg, cs.kind, cs.perm, cs.umask, hx(cs.name), hx(cs.old))
+	cfg := cs.cfg
+	if cs.imm {
+		cfg += "!imm"
+	}
+	return fmt.Sprintf("w %s %s %o %o %s %s", cfg, cs.kind, cs.perm, cs.umask, hx(cs.name), hx(cs.old))
 }
 
 func c35ParseCase(line string) (c35Case, bool) {
@@ -99,7 +104,7 @@ func c35ParseCase(line string) (c35Case, bool) {
 	u, err2 := strconv.ParseUint(t[4], 8, 32)
 	var cs c35Case
 	bad := safely(func() {
-		cs = c35Case{cfg: t[1], kind: t[2], perm: os.FileMode(p), umask: int(u), name: unhx(t[5]), old: unhx(t[6])}
+		cs = c35Case{cfg: strings.TrimSuffix(t[1], "!imm"), imm: strings.HasSuffix(t[1], "!imm"), kind: t[2], perm: os.FileMode(p), umask: int(u), name: unhx(t[5]), old: unhx(t[6])}
 	})
 	return cs, err1 == nil && err2 == nil && bad == ""
 }
@@ -108,6 +113,8 @@ type c35Env struct {
 	dir    string // the target's directory (cwd of shfmt)
 	tmpdir string // $TMPDIR
 	target string // absolute
+	link   string // a hard link to the target's original inode, outside the watched directories
+	imm    bool
 }
 
 var c35N struct {
@@ -145,6 +152,11 @@ func c35Setup(c *Ctx, cs c35Case) (c35Env, error) {
 			return env, err
 		}
 		os.Chmod(env.target, cs.perm)
+		env.link = filepath.Join(root, "hl", "link")
+		os.MkdirAll(filepath.Dir(env.link), 0o755)
+		if err := os.Link(env.target, env.link); err != nil {
+			return env, err
+		}
 	case "symlink":
 		real := filepath.Join(env.dir, "real-"+cs.name)
 		os.WriteFile(real, []byte(cs.old), 0o600)
@@ -161,10 +173,31 @@ func c35Setup(c *Ctx, cs c35Case) (c35Env, error) {
 		os.Mkdir(env.target, 0o755)
 		os.WriteFile(filepath.Join(env.target, "notes.txt"), []byte(cs.old), 0o644)
 	}
+	if cs.imm {
+		if out, err := exec.Command("chattr", "+i", env.dir).CombinedOutput(); err != nil {
+			return env, fmt.Errorf("chattr +i: %v %s", err, out)
+		}
+		env.imm = true
+	}
 	return env, nil
 }
 
+func c35ImmUsable(c *Ctx) bool {
+	d := filepath.Join(c35WorkDir(c), "c35", "immprobe")
+	os.MkdirAll(d, 0o755)
+	defer os.RemoveAll(d)
+	if exec.Command("chattr", "+i", d).Run() != nil {
+		return false
+	}
+	err := os.WriteFile(filepath.Join(d, "x"), nil, 0o600)
+	exec.Command("chattr", "-i", d).Run()
+	return err != nil
+}
+
 func (e c35Env) cleanup() {
+	if e.imm {
+		exec.Command("chattr", "-i", e.dir).Run()
+	}
 	os.RemoveAll(filepath.Dir(e.dir))
 	if strings.HasPrefix(e.tmpdir, "/dev/shm/verif-c35-") {
 		os.RemoveAll(e.tmpdir)
@@ -307,14 +340,17 @@ func c35Strings(args string) []string {
 }
 
 type c35Canon struct {
-	env      c35Env
-	base     string
-	sym      map[string]string // absolute temp path → P1 P2 X
-	fds      map[string]int    // real fd → symbolic number
-	nextFd   int
-	ops      []string
-	killedIn string   // canonical rendering of the call the tracee died in, if it belongs to the script
-	other    []string // unexpected calls touching the watched names
+	env       c35Env
+	base      string
+	sym       map[string]string // absolute temp path → P1 P2 X
+	fds       map[string]int    // real fd → symbolic number
+	nextFd    int
+	ops       []string
+	killedIn  string   // canonical rendering of the call the tracee died in, if it belongs to the script
+	other     []string // unexpected calls touching the watched names
+	targetOps []string // every call on the target's name (or on a descriptor opened on it for writing)
+	failStage string   // which temporary-file creation failed: probetmp probedir temp
+	cfg       string
 }
 
 func (k *c35Canon) abs(p string) string {
@@ -368,8 +404,24 @@ var c35ModeRe = regexp.MustCompile(`, (0[0-7]*)$`)
 
 // c35Canonicalise keeps the calls on the target, the temp names and their descriptors.
 func c35Canonicalise(env c35Env, cs c35Case, calls []c35Call) *c35Canon {
-	k := &c35Canon{env: env, base: cs.name, sym: map[string]string{}, fds: map[string]int{}}
-	readFd := "" // descriptor of the read-only open of the target (left out)
+	k := &c35Canon{env: env, base: cs.name, sym: map[string]string{}, fds: map[string]int{}, cfg: cs.cfg}
+	readFd := ""   // descriptor of the read-only open of the target (left out)
+	targetFd := "" // descriptor of an open of the target that can write (never expected)
+	hasSym := func(s string) bool {
+		for _, v := range k.sym {
+			if v == s {
+				return true
+			}
+		}
+		return false
+	}
+	defer func() {
+		for _, op := range k.ops {
+			if op == "lstat:T" || strings.HasSuffix(op, ":T") || strings.HasPrefix(op, "rename:T:") || strings.HasPrefix(op, "renamexdev:T:") {
+				k.targetOps = append(k.targetOps, op)
+			}
+		}
+	}()
 	for _, cl := range calls {
 		died := cl.ret == "?"
 		ok := died || (!strings.HasPrefix(cl.ret, "-1"))
@@ -396,6 +448,23 @@ func c35Canonicalise(env c35Env, cs c35Case, calls []c35Call) *c35Canon {
 				continue
 			}
 			excl := strings.Contains(cl.args, "O_CREAT") && strings.Contains(cl.args, "O_EXCL")
+			if excl && !ok && k.failStage == "" && !strings.Contains(cl.ret, "EEXIST") {
+				// a temporary file could not be created: where did the atomic path give up?
+				a := k.abs(strs[0])
+				dir, b := filepath.Dir(a), filepath.Base(a)
+				inTmp := dir == filepath.Clean(k.env.tmpdir) && dir != k.env.dir
+				switch {
+				case !strings.HasPrefix(b, "."+k.base):
+				case inTmp && k.cfg == "notmp" && strings.Contains(cl.ret, "ENOENT"):
+					// the configuration itself: $TMPDIR does not exist
+				case inTmp && !hasSym("P1"):
+					k.failStage = "probetmp"
+				case dir == k.env.dir && hasSym("P1") && !hasSym("P2") && !hasSym("X"):
+					k.failStage = "probedir"
+				default:
+					k.failStage = "temp"
+				}
+			}
 			s := k.classify(strs[0], excl && ok)
 			if s == "" {
 				continue
@@ -406,6 +475,12 @@ func c35Canonicalise(env c35Env, cs c35Case, calls []c35Call) *c35Canon {
 			if !excl {
 				if strings.Contains(cl.args, "O_WRONLY") || strings.Contains(cl.args, "O_RDWR") || strings.Contains(cl.args, "O_TRUNC") || strings.Contains(cl.args, "O_CREAT") {
 					k.other = append(k.other, cl.name+"("+s+" "+c35Flags(cl.args)+")")
+					if s == "T" {
+						k.targetOps = append(k.targetOps, "openw:T:"+strings.ReplaceAll(c35Flags(cl.args), " ", ""))
+						if !died {
+							targetFd = cl.ret
+						}
+					}
 				} else if !died {
 					readFd = cl.ret // read-only open (the file itself, or the directory being walked)
 				}
@@ -432,6 +507,17 @@ func c35Canonicalise(env c35Env, cs c35Case, calls []c35Call) *c35Canon {
 			if fd == readFd && readFd != "" {
 				if cl.name == "close" {
 					readFd = ""
+				}
+				continue
+			}
+			if fd == targetFd && targetFd != "" {
+				switch cl.name {
+				case "close":
+					targetFd = ""
+				case "fstat", "fsync", "fdatasync":
+				default:
+					k.targetOps = append(k.targetOps, cl.name+"-in-place:T")
+					k.other = append(k.other, cl.name+" on a descriptor of the target itself")
 				}
 				continue
 			}
@@ -501,6 +587,9 @@ func c35Canonicalise(env c35Env, cs c35Case, calls []c35Call) *c35Canon {
 			for _, s := range strs {
 				if c := k.classify(s, false); c != "" {
 					k.other = append(k.other, cl.name+"("+c+")")
+					if c == "T" {
+						k.targetOps = append(k.targetOps, cl.name+":T")
+					}
 				}
 			}
 			continue
@@ -531,11 +620,15 @@ func c35Flags(args string) string {
 // observation after a run
 
 type c35Obs struct {
-	content string
-	mode    os.FileMode
-	kind    string
-	names   []string          // every name in the target's directory and in $TMPDIR, as dir-tag/name
-	temps   map[string]string // dir-tag/name → hex bytes ":" octal mode, for regular files other than the target
+	content     string
+	mode        os.FileMode
+	kind        string
+	names       []string          // every name in the target's directory and in $TMPDIR, as dir-tag/name
+	temps       map[string]string // dir-tag/name → hex bytes ":" octal mode, for regular files other than the target
+	ino         uint64            // inode number of the target
+	linkOK      bool              // the hard link to the original inode still exists …
+	linkContent string            // … and holds these bytes
+	linkIno     uint64
 }
 
 func c35Observe(env c35Env) c35Obs {
@@ -544,6 +637,9 @@ func c35Observe(env c35Env) c35Obs {
 		o.kind = "missing"
 	} else {
 		o.mode = fi.Mode().Perm()
+		if st, ok := fi.Sys().(*syscall.Stat_t); ok {
+			o.ino = st.Ino
+		}
 		switch {
 		case fi.Mode().IsRegular():
 			o.kind = "reg"
@@ -576,6 +672,15 @@ func c35Observe(env c35Env) c35Obs {
 		}
 	}
 	sort.Strings(o.names)
+	if env.link != "" {
+		if fi, err := os.Lstat(env.link); err == nil {
+			b, _ := os.ReadFile(env.link)
+			o.linkOK, o.linkContent = true, string(b)
+			if st, ok := fi.Sys().(*syscall.Stat_t); ok {
+				o.linkIno = st.Ino
+			}
+		}
+	}
 	return o
 }
 
@@ -642,7 +747,24 @@ func c35RunCase(c *Ctx, cs c35Case) (res c35Result) {
 		fail("unexpected calls on the target or its temporary files: " + strings.Join(canon.other, "; "))
 	}
 	scriptImpl := strings.Join(canon.ops, ";")
-	if cs.kind != "reg" || newBytes != cs.old {
+	// did the atomic path fail (a temporary file could not be created)?  Then shfmt must report the error
+	// and leave the file alone: same inode, same bytes.
+	failing := cs.kind == "reg" && newBytes != cs.old && canon.failStage != ""
+	// the alphabet of calls on the target's name, checked by Lean (spec op) and here
+	res.ops = append(res.ops, c35Line{"spectarget " + c35TargetOps(canon.targetOps), "ok"})
+	for _, op := range canon.targetOps {
+		if op != "lstat:T" && op != "rename:X:T" {
+			fail("call on the target itself that is not part of an atomic replace: " + op)
+			break
+		}
+	}
+	if failing {
+		res.tags = append(res.tags, "atomic-path-fails:"+canon.failStage)
+		res.ops = append(res.ops, c35Line{fmt.Sprintf("failscript %s %s", cs.cfg, canon.failStage), scriptImpl})
+		if ref.status == 0 {
+			fail("the atomic replace failed (" + canon.failStage + ") but shfmt -w exited 0: " + firstLine35(ref.stderr))
+		}
+	} else if cs.kind != "reg" || newBytes != cs.old {
 		res.ops = append(res.ops, c35Line{fmt.Sprintf("script %s %s %s %s %s", cs.cfg, kindWord, perm, umask, hx(newBytes)), scriptImpl})
 	} else {
 		// already formatted: nothing may be touched
@@ -651,12 +773,23 @@ func c35RunCase(c *Ctx, cs c35Case) (res c35Result) {
 		}
 	}
 	// completed run: final state
-	if cs.kind == "reg" {
+	if failing {
+		if after.kind != "reg" || after.content != cs.old || after.mode != cs.perm || after.ino != before.ino {
+			fail(fmt.Sprintf("failed atomic replace (%s), yet the target changed: %s mode %o inode %d→%d, %d bytes (were %d): %q", canon.failStage, after.kind, after.mode, before.ino, after.ino, len(after.content), len(cs.old), c35Head(after.content)))
+		}
+	} else if cs.kind == "reg" {
 		if after.kind != "reg" || after.content != newBytes || after.mode != cs.perm {
 			fail(fmt.Sprintf("completed run: target is %s mode %o with %d bytes; expected the formatted %d bytes with mode %o", after.kind, after.mode, len(after.content), len(newBytes), cs.perm))
 		}
+		if newBytes != cs.old && after.ino == before.ino {
+			fail(fmt.Sprintf("the file was rewritten in place (same inode %d): not an atomic replace", after.ino))
+		}
 	} else if after.kind != before.kind || after.content != before.content || after.mode != before.mode {
 		fail(fmt.Sprintf("%s target was changed by shfmt -w (now %s mode %o)", cs.kind, after.kind, after.mode))
+	}
+	// hard-link witness: the original inode is never modified
+	if cs.kind == "reg" && (!after.linkOK || after.linkContent != cs.old || after.linkIno != before.ino) {
+		fail(fmt.Sprintf("the original inode was modified: a hard link to it now holds %d bytes (%q…), were %d", len(after.linkContent), c35Head(after.linkContent), len(cs.old)))
 	}
 	if strings.Join(after.names, " ") != strings.Join(before.names, " ") {
 		fail(fmt.Sprintf("completed run changed the directory listing: before %v, after %v", before.names, after.names))
@@ -769,9 +902,21 @@ func c35RunCase(c *Ctx, cs c35Case) (res c35Result) {
 				}
 				what = "unexpected name after the run: " + n
 			}
+			if what == "" && (!obs.linkOK || obs.linkContent != cs.old) {
+				what = fmt.Sprintf("the original inode was modified: a hard link to it now holds %d bytes (%q…)", len(obs.linkContent), c35Head(obs.linkContent))
+			}
+			for _, op := range kc.targetOps {
+				if op != "lstat:T" && op != "rename:X:T" && what == "" {
+					what = "call on the target itself that is not part of an atomic replace: " + op
+				}
+			}
 			if !rr.killed {
 				// the injection did not fire (no thread made k such calls): this is a completed run
-				if obs.content != newBytes && what == "" {
+				if kc.failStage != "" {
+					if obs.content != cs.old && what == "" {
+						what = "failed atomic replace (" + kc.failStage + "), yet the target changed"
+					}
+				} else if obs.content != newBytes && what == "" {
 					what = "completed run left the original bytes"
 				}
 				if len(leftovers) > 0 {
@@ -789,12 +934,28 @@ func c35RunCase(c *Ctx, cs c35Case) (res c35Result) {
 			if len(leftovers) > 0 {
 				res.tags = append(res.tags, "leftover-after-kill")
 			}
-			// the killed prefix must be a prefix of the reference script, and the state the model's
-			if pos > scriptLen || strings.Join(kc.ops, ";") != strings.Join(canon.ops[:pos], ";") {
-				res.ops = append(res.ops, c35Line{fmt.Sprintf("script %s %s %s %s %s", cs.cfg, kindWord, perm, umask, hx(newBytes)), "killed run is not a prefix: " + strings.Join(kc.ops, ";")})
+			// the killed prefix must be a prefix of the model's script for the path this run took (Lean decides)
+			stage := kc.failStage
+			if stage == "" {
+				stage = "ok"
+			}
+			obsOps := make([]string, len(kc.ops))
+			for j, op := range kc.ops {
+				if strings.HasPrefix(op, "write:") && strings.HasSuffix(op, ":"+hx(newBytes)) {
+					op = strings.TrimSuffix(op, hx(newBytes)) + hx("new")
+				}
+				obsOps[j] = op
+			}
+			res.ops = append(res.ops, c35Line{fmt.Sprintf("isprefix %s %s %s %s %s %s", cs.cfg, stage, perm, umask, hx("new"), c35TargetOps(obsOps)), "prefix"})
+			if kc.failStage != "" || pos > scriptLen || strings.Join(kc.ops, ";") != strings.Join(canon.ops[:pos], ";") {
+				// a different path than the reference run (the random suffix decides for names near the limit)
+				res.tags = append(res.tags, "kill-on-other-path")
 				continue
 			}
 			res.covered[fmt.Sprintf("%d", pos)] = true
+			if failing {
+				continue // states of a failing script: checked above (old bytes, original inode)
+			}
 			// state line
 			tgt := hx(obs.content)
 			if obs.content == cs.old {
@@ -855,6 +1016,23 @@ func c35SyscallOf(op string) string {
 	return op[:strings.IndexByte(op, ':')]
 }
 
+func c35TargetOps(ops []string) string {
+	if len(ops) == 0 {
+		return "-"
+	}
+	return strings.Join(ops, " ")
+}
+
+func firstLine35(s string) string {
+	if i := strings.IndexByte(s, '\n'); i >= 0 {
+		s = s[:i]
+	}
+	if len(s) > 200 {
+		s = s[:100] + "…" + s[len(s)-80:]
+	}
+	return s
+}
+
 func c35Rank(s string) int {
 	switch s {
 	case "T":
@@ -898,7 +1076,7 @@ func c35Source(r *Rand, size int) string {
 	return s
 }
 
-func c35GenCase(r *Rand, i int, xdev bool, thorough bool) c35Case {
+func c35GenCase(r *Rand, i int, xdev, imm, thorough bool) c35Case {
 	perms := []os.FileMode{0o644, 0o755, 0o600, 0o444, 0o640, 0o666, 0o777, 0o400, 0o664, 0o700}
 	umasks := []int{0o022, 0o077, 0o000, 0o027, 0o002}
 	sizes := []int{0, 1, 10, 100, 1000, 4095, 4096, 4097, 8192, 32768, 65536}
@@ -938,6 +1116,23 @@ func c35GenCase(r *Rand, i int, xdev bool, thorough bool) c35Case {
 	}
 	// quick: every boundary for the first few files, a sample for the rest; thorough: every boundary
 	cs.sample = !thorough && i >= 2
+	// targets on which the atomic path FAILS: base names of 230..255 bytes (every length around the limit
+	// of the 10-digit probe suffix and the 19-digit pending-file suffix), immutable directories
+	switch {
+	case cs.kind == "reg" && (i%6 == 2 || i%6 == 5 || r.Chance(10)):
+		l := 230 + (i/3+r.Intn(26))%26
+		cs.name = strings.Repeat("n", l-3) + ".sh"
+		cs.sample = false
+		if len(cs.old) > 2000 {
+			cs.old = c35Source(r, 100)
+		}
+	case cs.kind == "reg" && imm && (i%6 == 4 || r.Chance(5)):
+		cs.imm = true
+		cs.sample = false
+		if len(cs.old) > 2000 {
+			cs.old = c35Source(r, 100)
+		}
+	}
 	return cs
 }
 
@@ -955,11 +1150,12 @@ func c35(c *Ctx) {
 		os.Exit(3)
 	}
 	xdev := c35XdevUsable(c)
+	imm := c35ImmUsable(c)
 	var cases []c35Case
 	if c.Shard == 0 {
 		for _, line := range c.CorpusLines() {
 			if cs, ok := c35ParseCase(line); ok {
-				if cs.cfg == "xdev" && !xdev {
+				if (cs.cfg == "xdev" && !xdev) || (cs.imm && !imm) {
 					continue
 				}
 				cases = append(cases, cs)
@@ -967,7 +1163,7 @@ func c35(c *Ctx) {
 		}
 	}
 	for i := 0; i < c.N; i++ {
-		cases = append(cases, c35GenCase(c.R.Fork(fmt.Sprintf("case%d", i)), i, xdev, c.Thorough()))
+		cases = append(cases, c35GenCase(c.R.Fork(fmt.Sprintf("case%d", i)), i, xdev, imm, c.Thorough()))
 	}
 	results := parallelMap(len(cases), 4, func(i int) c35Result {
 		var res c35Result
@@ -994,6 +1190,12 @@ func c35(c *Ctx) {
 		for _, f := range res.fails {
 			c.Fail(f.Witness, f.What)
 		}
+		if len(cs.name) >= 200 {
+			res.tags = append(res.tags, fmt.Sprintf("namelen:%d", len(cs.name)))
+		}
+		if cs.imm {
+			res.tags = append(res.tags, "immutable-dir")
+		}
 		tags := append(res.tags, "cfg:"+cs.cfg, fmt.Sprintf("perm:%o", cs.perm), fmt.Sprintf("umask:%o", cs.umask), c35SizeTag(len(cs.old)))
 		c.Case(res.key, res.nontriv, dedupStrings(tags)...)
 		if cs.kind == "reg" && res.nontriv {
@@ -1016,6 +1218,9 @@ func c35(c *Ctx) {
 		}
 		sort.Ints(ps)
 		c.Extra["kill_positions_"+cfg] = joinInts(ps)
+	}
+	if !imm {
+		c.Extra["immutable"] = "skipped: chattr +i is not usable here"
 	}
 	if !xdev {
 		c.Extra["xdev"] = "skipped: /dev/shm is not a separate writable file system"
